@@ -9,6 +9,7 @@ import authoring as A
 import richchecks as R
 import richcorr as RC
 import scenarios as SC
+import validator
 import vlib
 
 PROP = "C10"
@@ -19,7 +20,8 @@ def run(ck: vlib.Check):
     ck.rule = ("maps written from the format description containing unknown sections (any name incl. non-UTF-8, any "
                "payload, duplicated, empty), recognised sections without a rich model (STRx, VER, ...), and triggers mixing "
                "supported entries with unsupported types (transmission, talking portrait, mute, comment, next scenario, "
-               "debug, briefing condition) and out-of-enum type bytes with random field contents; unedited and after "
+               "debug, briefing condition) and out-of-enum type bytes with random field contents, plus a complete sweep of every "
+               "condition / action type byte without a model; unedited and after "
                "random edit sequences; every such section must sit at its position byte for byte, every such entry must "
                "be byte-identical and keep its rank among the non-empty entries. Implementation vs extracted model byte "
                "for byte. Distinct = distinct (map, edits).")
@@ -32,6 +34,12 @@ def run(ck: vlib.Check):
                          ntrig=rng.choice([1, 2, 4])).build()
         spec = A.gen_scenario(rng, base) if i % 2 else {"pool": {"locs": [], "cuwps": [], "switches": []}, "ops": []}
         cases.append((f"gen:{form}:{i}", base, spec))
+    # complete sweep of the type bytes without a model (conditions and actions), unedited and with one edit
+    for k in range(2):
+        base = SC.MapGen(random.Random(rng.randrange(10 ** 9)), "editor", nloc=255, all_sections=True, ntrig=1, sweep=True).build()
+        spec = {"pool": {"locs": [], "cuwps": [], "switches": []},
+                "ops": [] if k == 0 else [["add_triggers", [{"conds": [], "acts": [["rich", 1, [], [False] * 5]], "players": [0]}]]]}
+        cases.insert(0, (f"sweep:{k}", base, spec))
     impl = []
     kinds = {"unknown_sections": 0, "raw_entries": 0}
     tables = None
@@ -42,6 +50,12 @@ def run(ck: vlib.Check):
         ck.note_case(label + str(hash(base)) + json.dumps(spec, sort_keys=True)[:1000])
         kinds["unknown_sections"] += sum(1 for nme, _ in SC.chunks_of(base) if nme not in R.PASSTHROUGH_EXEMPT)
         if r[0] == 0:
+            if not spec["ops"] and not validator.validate(base):
+                # a structurally valid map (independent validator: every reference resolves) with unmodelled
+                # content, not edited at all: it must load and save
+                ck.violation(f"{label}: loading and saving the unedited map raised (error class {r[1]}) instead of passing "
+                             f"the unmodelled content through", {"kind": "passthrough", "label": label, "base_hex": base.hex(),
+                                                                 "spec": spec, "detail": "raised"}, True)
             continue
         bad = R.c10_oracle(base, bytes(r[1]))
         if bad:
@@ -60,7 +74,7 @@ def replay(path: str) -> int:
     if rp.get("kind") == "passthrough":
         base = bytes.fromhex(rp["base_hex"])
         r = A.run_impl(base, rp["spec"])
-        bad = R.c10_oracle(base, bytes(r[1])) if r[0] == 1 else None
+        bad = R.c10_oracle(base, bytes(r[1])) if r[0] == 1 else ("raised" if not rp["spec"]["ops"] and not validator.validate(base) else None)
         print("still failing: " + bad if bad else "no longer failing")
         return 1 if bad else 0
     print(json.dumps(rp, indent=1)[:3000])
